@@ -73,6 +73,9 @@ pub enum Mutation {
     Resize(u16, u8),
     /// if the node is a number: perturb it
     Perturb(u16, u8),
+    /// if the node is a serialised array ({"v":1,"dim":[..],"data":[..]}): give it another shape with
+    /// the same number of elements
+    Reshape(u16, u8),
 }
 
 #[derive(Clone, Debug, Serialize, Deserialize)]
@@ -215,6 +218,7 @@ fn mutation() -> impl Strategy<Value = Mutation> {
         2 => (any::<u16>(), 0u8..6).prop_map(|(i, k)| Mutation::BadString(i, k)),
         3 => (any::<u16>(), 0u8..4).prop_map(|(i, k)| Mutation::Resize(i, k)),
         3 => (any::<u16>(), 0u8..6).prop_map(|(i, k)| Mutation::Perturb(i, k)),
+        2 => (any::<u16>(), 0u8..5).prop_map(|(i, k)| Mutation::Reshape(i, k)),
     ]
 }
 
@@ -561,6 +565,42 @@ fn mutate(text: &str, muts: &[Mutation]) -> (String, Vec<&'static str>) {
                     });
                     if done {
                         applied.push("perturb-number");
+                        break;
+                    }
+                }
+            }
+            Mutation::Reshape(i, kind) => {
+                let start = idx(*i);
+                for off in 0..total {
+                    let t = 1 + (start - 1 + off) % (total - 1);
+                    let mut done = false;
+                    let mut c2 = 0usize;
+                    with_parent_of(&mut v, t, &mut c2, &mut |p, k, ix| {
+                        if let Some(c) = get_child(p, &k, &ix) {
+                            let shape: Option<Vec<u64>> = c.get("dim").and_then(|d| d.as_array()).map(|a| a.iter().filter_map(|d| d.as_u64()).collect());
+                            if let (Some(shape), true) = (shape, c.get("data").map_or(false, |d| d.is_array())) {
+                                let count: u64 = shape.iter().product();
+                                let new_shape: Vec<u64> = match (kind % 5, shape.len()) {
+                                    (0, 2) => vec![1, count],
+                                    (1, 2) => vec![count, 1],
+                                    (2, 2) => vec![count],
+                                    (3, 2) => if count == 0 { vec![0, 3] } else { vec![shape[1], shape[0]] },
+                                    (_, 2) => if count == 0 { vec![2, 0] } else { vec![1, 1, count] },
+                                    (0, _) => vec![1, count],
+                                    (1, _) => vec![count, 1],
+                                    (2, _) => if count == 4 { vec![2, 2] } else { vec![count, 1, 1] },
+                                    (3, _) => vec![],
+                                    _ => if count == 0 { vec![0, 0] } else { vec![1, count] },
+                                };
+                                if new_shape != shape {
+                                    c["dim"] = Value::from(new_shape);
+                                    done = true;
+                                }
+                            }
+                        }
+                    });
+                    if done {
+                        applied.push("reshape-array");
                         break;
                     }
                 }
@@ -1146,7 +1186,7 @@ impl Property for C20 {
         vec![Stage::random("random", tier.pick(300_000, 20_000_000), case_strategy)]
     }
     fn rule(&self) -> String {
-        "three families, everything under catch_unwind with the interpreter initialised. (A) constructors and fallible operations with arbitrary arguments: Dual/Dual2::try_new and try_new_from (any floats incl. NaN/inf, duplicate names, coefficient vectors of any length 0-8/0-17), Ccy / FXPair / FXRate (arbitrary short unicode strings incl. ones whose lower-casing changes the byte length), FXRates::try_new (arbitrary quote multisets, any base, rates incl. 0 / negative / NaN / inf, all number kinds, settlement mixes; a union-find predicts Ok/Err), NamedCal::try_new (strings over [A-Za-z,| ] and arbitrary unicode; a parser model predicts Ok/Err), PPSpline::csolve + evaluation (any site/data lengths, end orders 0..k+1, both lsq flags, all three element types; the harness's own rank test classifies the collocation matrix), get_roll, index_value. (B) add_days / add_bus_days / lag / roll / bus_date_range over the whole i8 range and add_months for offsets landing in 1970-2200 with every roll kind and day 1-31 on arbitrary calendars. (C) valid JSON documents of 14 kinds (direct and through the tagged from_json entry point) with 1-3 structural mutations (delete, duplicate key / element, replace by another JSON value, semantically wrong string, array resize, number perturbation); the mutated text is loaded; an accepted object is re-saved and every number / spline inside must satisfy its shape rule, a loaded FX market must answer all n*n rates. Oracle: no panic anywhere; Ok/Err as the explicit contracts predict. Non-trivial: an argument tuple that hits an error rule or an extreme; |n| >= 100 or a capped roll day; a mutated document that differs from the original.".into()
+        "three families, everything under catch_unwind with the interpreter initialised. (A) constructors and fallible operations with arbitrary arguments: Dual/Dual2::try_new and try_new_from (any floats incl. NaN/inf, duplicate names, coefficient vectors of any length 0-8/0-17), Ccy / FXPair / FXRate (arbitrary short unicode strings incl. ones whose lower-casing changes the byte length), FXRates::try_new (arbitrary quote multisets, any base, rates incl. 0 / negative / NaN / inf, all number kinds, settlement mixes; a union-find predicts Ok/Err), NamedCal::try_new (strings over [A-Za-z,| ] and arbitrary unicode; a parser model predicts Ok/Err), PPSpline::csolve + evaluation (any site/data lengths, end orders 0..k+1, both lsq flags, all three element types; the harness's own rank test classifies the collocation matrix), get_roll, index_value. (B) add_days / add_bus_days / lag / roll / bus_date_range over the whole i8 range and add_months for offsets landing in 1970-2200 with every roll kind and day 1-31 on arbitrary calendars. (C) valid JSON documents of 14 kinds (direct and through the tagged from_json entry point) with 1-3 structural mutations (delete, duplicate key / element, replace by another JSON value, semantically wrong string, array resize, number perturbation, re-shaping a serialised array to another shape with the same element count); the mutated text is loaded; an accepted object is re-saved and every number / spline inside must satisfy its shape rule, a loaded FX market must answer all n*n rates. Oracle: no panic anywhere; Ok/Err as the explicit contracts predict. Non-trivial: an argument tuple that hits an error rule or an extreme; |n| >= 100 or a capped roll day; a mutated document that differs from the original.".into()
     }
     fn floors(&self, tier: Tier) -> Vec<Floor> {
         let n = tier.pick(300_000u64, 20_000_000);
@@ -1159,6 +1199,7 @@ impl Property for C20 {
             Floor { label: "fx:valid", min: n / 2000 },
             Floor { label: "mutation:duplicate-key", min: n / 50 },
             Floor { label: "mutation:bad-string", min: n / 50 },
+            Floor { label: "mutation:reshape-array", min: n / 100 },
         ];
         for k in ["Dual", "Dual2", "Cal", "UnionCal", "NamedCal", "FXRates", "Curve", "SplineF64", "SplineDual", "SplineDual2"] {
             f.push(Floor { label: intern(format!("doc:{}", k)), min: n / 200 });
